@@ -63,13 +63,35 @@ class C09(Machine):
 
     def _call(self, pb, c, o, piece, kw, kind, npulls, sess, extra_pull=True):
         sid = pb.step(c, k="call", obj=o, name="iterblocks", args=[B(piece)], kw=kw, tag=kind, role="start")
-        pulls = []
-        for _ in range(npulls + (1 if extra_pull else 0)):
-            pulls.append(pb.step(c, k="pull", gen=sid, n=1, obj=o, tag="pull", role="pull"))
-        sess["calls"].append({"start": sid, "pulls": pulls, "kind": kind})
+        rec = {"start": sid, "pulls": [], "kind": kind}
+        sess["calls"].append(rec)
+        n = npulls + (1 if extra_pull else 0)
+        if sess.get("_defer") is not None:
+            sess["_defer"].append((rec, sid, n))       # generators are obtained up front, drained later
+        else:
+            for _ in range(n):
+                rec["pulls"].append(pb.step(c, k="pull", gen=sid, n=1, obj=o, tag="pull", role="pull"))
         return sid
 
+    def _flush(self, pb, c, o, sess):
+        for rec, sid, n in sess.get("_defer") or []:
+            for _ in range(n):
+                rec["pulls"].append(pb.step(c, k="pull", gen=sid, n=1, obj=o, tag="pull", role="pull"))
+        sess["_defer"] = None
+
     def _message(self, rng, pb, c, o, scheme, prm, sess, abandon=False):
+        # one message in five: all generators of the message (continuation calls, final call, the
+        # call after the final block) are obtained first - itertools.chain(a.iterblocks(..),..) -
+        # and only then drained in order; being lazy, they must behave exactly the same
+        if not abandon and rng.random() < 0.2:
+            sess["_defer"] = []
+            sess["upfront"] = sess.get("upfront", 0) + 1
+        try:
+            return self._message1(rng, pb, c, o, scheme, prm, sess, abandon)
+        finally:
+            self._flush(pb, c, o, sess)
+
+    def _message1(self, rng, pb, c, o, scheme, prm, sess, abandon=False):
         nB = prm["B"] // 8
         k = rng.choice([0, 0, 0, 1, 1, 2, 3])
         prior = 0
@@ -154,6 +176,7 @@ class C09(Machine):
             else:
                 self._message(rng, pb, c, o, scheme, prm, sess)
         pb.plan["observe"] += [[o, "bitcnt"], [o, "padcnt"], [o, "padflag"]]
+        sess.pop("_defer", None)
         return sess, (scheme, prm, rec)
 
     def gen(self, rng, idx, seed):
@@ -237,6 +260,9 @@ class C09(Machine):
                     if ck == "after_final" and not finished:
                         break
                     e = pulls[0] if pulls else None
+                    # refused = the call itself raised, or (lazy generator) its first pull did
+                    if by_id[call["start"]]["out"][0] == "exc":
+                        e = None
                     if e is not None and e["out"][0] != "exc":
                         vs.append(vio("not_refused", kind, ck, call["pulls"][0], {"got": e["out"], "piece_len": len(piece), "kw": kw}))
                     if ck == "after_final":
@@ -333,6 +359,7 @@ class C09(Machine):
                 else:
                     prior += 8 * len(piece)
             trace.append(",".join(tr))
+        probe("messages_with_generators_obtained_up_front", sum(s_.get("upfront", 0) for s_ in plan["meta"].get("sessions", [])))
         probe("sessions", len(trace))
         extra = {"faults": fcount, "fps": sorted(set(f for e in hist for f in e.get("fp", [])))}
         # interleaving is part of the trace: order of clients in the linear schedule
